@@ -87,6 +87,14 @@ func generate(r *simkit.Rand, prop, tier string) *simkit.Plan {
 		w[4], w[5], w[6] = 0, 0, 0
 		w[7], w[8], w[9], w[10] = r.Range(1, 3), r.Range(1, 3), r.Range(4, 12), r.Range(1, 2)
 		withWorkers = true
+	} else if prop == "C09" && p.Arm == "monotone" && r.Chance(0.25) {
+		// a tiny checkpoint-hashes holder: AccountsDB.Commit forces a state checkpoint of the new root whenever the
+		// holder is full; each forced checkpoint is run to completion right after the commit
+		p.Arm = "monotone+forced-checkpoints"
+		p.Knobs["bubble"], p.Knobs["drain_each"] = 1, 1
+		p.Knobs["holder"] = int64([]int{40, 100, 300, 1000, 3000}[r.Intn(5)])
+		p.Knobs["snapbuf"], p.Knobs["maxsnap"], p.Knobs["delay"] = 10, int64(r.Range(1, 3)), 0
+		w[4], w[5], w[6] = 0, 0, 0
 	}
 	n := r.Range(8, 60)
 	if tier == "thorough" && r.Chance(0.3) {
